@@ -67,4 +67,16 @@ def step (s : OSet) : Op → OSet
 /-- every state reachable from `OrderedSet()` -/
 def run (ops : List Op) : OSet := ops.foldl step []
 
+/-- the abstract (mathematical) set an `OrderedSet` stands for, as a membership predicate -/
+def specStep (P : Nat → Prop) : Op → Nat → Prop
+  | .add x => fun y => P y ∨ y = x
+  | .discard x => fun y => P y ∧ y ≠ x
+  | .update xs => fun y => P y ∨ y ∈ xs
+  | .diff xs => fun y => P y ∧ y ∉ xs
+  | .inter xs => fun y => P y ∧ y ∈ xs
+  | .sym xs => fun y => (P y ∧ y ∉ xs) ∨ (¬ P y ∧ y ∈ xs)
+  | .clear => fun _ => False
+
+def specRun (ops : List Op) : Nat → Prop := ops.foldl specStep (fun _ => False)
+
 end EdbVerif.OrdSet
